@@ -45,7 +45,7 @@ typedef struct rec_s {
     const unsigned char *cur_p; size_t cur_n; int cur_dir;   /* chunk of the API call in progress */
     long off[2];                    /* stream offsets */
     uint32_t bodyhash[2][64]; long bodylen[2][64];
-    char cborder[64][256]; int cbolen[64];
+    char cborder[2][64][256]; int cbolen[2][64];      /* per transaction and side (0 request, 1 response incl. transaction_complete) */
     long ncb, maxcb;
     int stall, fault_reported, nolive;
 } rec_t;
@@ -150,10 +150,14 @@ static int behave(rec_t *r, const char *hook, htp_tx_t *tx, const char **retname
 static void note_order(rec_t *r, htp_tx_t *tx, int hi, int isdata) {
     size_t i = (size_t) txi(tx);
     if (i >= 64) return;
+    /* the raw header / trailer DATA receivers are fed once per API call by design (their chunking follows the caller's); they are
+     * logged as events but are not part of the per-transaction callback order that must be cut-independent (DESIGN.md 4) */
+    if (hi == 3 || hi == 7 || hi == 12 || hi == 15) return;
     char c = CBCODE[hi];
-    int n = r->cbolen[i];
-    if (isdata && n > 0 && r->cborder[i][n - 1] == c) return;     /* consecutive data callbacks merged */
-    if (n < 255) { r->cborder[i][n] = c; r->cbolen[i] = n + 1; r->cborder[i][n + 1] = 0; }
+    int sd = (hi >= 10 && hi != 19) ? 1 : 0;        /* hooks 0..9 and tx_request_body_data are request-side */
+    int n = r->cbolen[sd][i];
+    if (isdata && n > 0 && r->cborder[sd][i][n - 1] == c) return;     /* consecutive data callbacks merged */
+    if (n < 255) { r->cborder[sd][i][n] = c; r->cbolen[sd][i] = n + 1; r->cborder[sd][i][n + 1] = 0; }
 }
 
 static int on_tx(const char *hook, htp_tx_t *tx) {
@@ -378,7 +382,7 @@ static void dump_tx(rec_t *r, FILE *o, htp_tx_t *tx, size_t slot) {
     fprintf(o, ",\"serial\":%ld", ser);
     if (ser >= 0 && ser < 64) {
         fprintf(o, ",\"qbody\":[%ld,%u],\"sbody\":[%ld,%u]", r->bodylen[0][ser], r->bodyhash[0][ser] & 0x7fffffff, r->bodylen[1][ser], r->bodyhash[1][ser] & 0x7fffffff);
-        fputs(",\"cbs\":", o); jcstr(o, r->cborder[ser]);
+        fputs(",\"cbq\":", o); jcstr(o, r->cborder[0][ser]); fputs(",\"cbs\":", o); jcstr(o, r->cborder[1][ser]);
     }
     fputc('}', o);
 }
@@ -471,7 +475,7 @@ static void run_scenario(rec_t *r, char **lines, int nl, const char *name, int p
     memset(r->hookcount, 0, sizeof r->hookcount); r->nbeh = 0; r->ncb = 0; r->stall = 0;
     memset(r->expq, 0, sizeof r->expq); memset(r->exps, 0, sizeof r->exps);
     memset(r->bodyhash, 0, sizeof r->bodyhash); memset(r->bodylen, 0, sizeof r->bodylen);
-    memset(r->cbolen, 0, sizeof r->cbolen); for (int i = 0; i < 64; i++) r->cborder[i][0] = 0;
+    memset(r->cbolen, 0, sizeof r->cbolen); for (int i = 0; i < 64; i++) r->cborder[0][i][0] = r->cborder[1][i][0] = 0;
     r->off[0] = r->off[1] = 0; r->pid = pid; g_serial = 0; r->fault_reported = 0;
     for (int i = 0; i < nl; i++) {
         char *l = lines[i];
